@@ -177,7 +177,9 @@ def merge_queues(queues):
         if branches[QueueIntegrationBranch]:
             latest = branches[QueueIntegrationBranch][0]
             LOG.debug("Merging %s into %s", latest, destination)
-            destination.merge(latest)
+            # never create a merge commit here: it would land on the
+            # destination without ever having been built
+            destination.merge(latest, ff_only=True)
 
             # Delete the merged queue-integration branches
             for queue in branches[QueueIntegrationBranch]:
